@@ -73,6 +73,7 @@ func (fr *frame) callFunction(v ssa.Value, callee *ssa.Function, args, binds []V
 		fr.callLog = map[string][][]Val{}
 	}
 	fr.callLog[callee.Name()] = append(fr.callLog[callee.Name()], args)
+	fr.beforeCall(callee.Name(), args, pos)
 	if u.trackCalls[callee.Name()] {
 		return fr.trackedCall(v, callee, args, binds, pos)
 	}
@@ -616,9 +617,33 @@ func (fr *frame) invokeCall(v ssa.Value, c *ssa.CallCommon, recv Val) Val {
 	return fr.invokeCallVals(v, c, recv, rest)
 }
 
+// beforeCall: call-site obligations declared with `before CALLEE requires E` (arg0, arg1, ... name
+// the call's arguments; other names are resolved at the call point)
+func (fr *frame) beforeCall(name string, args []Val, pos ssa.Instruction) {
+	if fr.contract == nil || !fr.top {
+		return
+	}
+	for k, cl := range fr.contract.Before[name] {
+		env := fr.specEnvAt(fr.blk, fr.st, nil)
+		env.inclusive = true
+		for i, a := range args {
+			env.vars[fmt.Sprintf("arg%d", i)] = a
+		}
+		t, extra, err := env.goal(cl.E)
+		if err != nil {
+			fr.u.bindingError(fmt.Sprintf("before %s requires %d: %v", name, k+1, err))
+			continue
+		}
+		if o := fr.obligeO("callsite", fmt.Sprintf("before calling %s: %s", name, cl.Src), pos.Pos(), t); o != nil {
+			o.Extra = extra
+		}
+	}
+}
+
 func (fr *frame) invokeCallVals(v ssa.Value, c *ssa.CallCommon, recv Val, rest []Val) Val {
 	u := fr.u
 	name := c.Method.Name()
+	fr.beforeCall(name, append([]Val{recv}, rest...), v.(ssa.Instruction))
 	if !u.trackCalls[name] {
 		return fr.invokeCallVals2(v, c, recv, rest)
 	}
